@@ -1,0 +1,49 @@
+//go:build verif
+
+package zitiql
+
+// Lemmas for string literals (C11); compiled only with the verif tag, never called.
+
+// verifLiteral: the quoted literal that stands for s (backslash and quote escaped, \f \n \r \t for the four
+// control characters a literal cannot contain raw)
+func verifLiteral(s string) string {
+	out := []byte{'"'}
+	for i := 0; i < len(s); i++ {
+		out = append(out, verifEscapeByte(s[i])...)
+	}
+	out = append(out, '"')
+	return string(out)
+}
+
+// verifEscapeByte: how one byte is written inside a literal
+func verifEscapeByte(c byte) []byte {
+	switch c {
+	case '\\':
+		return append([]byte{'\\'}, '\\')
+	case '"':
+		return append([]byte{'\\'}, '"')
+	case '\f':
+		return append([]byte{'\\'}, 'f')
+	case '\n':
+		return append([]byte{'\\'}, 'n')
+	case '\r':
+		return append([]byte{'\\'}, 'r')
+	case '\t':
+		return append([]byte{'\\'}, 't')
+	}
+	return []byte{c}
+}
+
+// the literal of s denotes s
+func verifRoundTripLiteral(s string) string {
+	return ParseZqlString(verifLiteral(s))
+}
+
+// two strings with the same literal are the same string
+func verifLiteralInjective(a, b string) bool {
+	if verifLiteral(a) != verifLiteral(b) {
+		return false
+	}
+	_ = ParseZqlString(verifLiteral(a))
+	return true
+}
